@@ -4,6 +4,8 @@ An abstract program is the `prog` of spec/PassLoop.tla: a list of items
   {k:def,l,al} {k:abs,l,w} {k:var,l} {k:rel,l} {k:fill,n} {k:ins} {k:equ,l,l2,d}
   {k:labs,l,t,w,df} {k:lvar,l,t} {k:lrel,l,t}: reference statement with label l ("-": none) on its own line and
   operand t (a label, possibly l itself, or "*" = the PC symbol; df: operand is t - l)
+  {k:asm,pg}: assume dpr:pg (6809) / assume b:pg (65CE02).  A direct-form operand is decoded to its byte only:
+  which page that byte lives in is the specification's business (PassLayout EncVal / PageAt).
 A layout is a list (one entry per item) of {a: address, n: size, p: padding bytes in front, v: value encoded}.
 Nothing in here judges: the decoded layout goes to TLC (PassLoop_Obs), which evaluates the declarative
 predicate Valid of the specification on it.
@@ -31,6 +33,7 @@ class Dialect:
     def __init__(self, name, cls, cpu, be, pads, lines, var, rel, fill, org, hexfmt, pc="*", nop=(0x4E, 0x71)):
         self.name, self.cls, self.cpu, self.be, self.pads = name, cls, cpu, be, pads
         self.pc, self.nop = pc, nop     # spelling of the PC symbol; bytes of the operand-less instruction
+        self.assume = None              # template of the ASSUME statement for the direct/base page register
         self.lines = lines      # item kind -> list of alternative templates
         self.var = var          # mnemonic -> (short opcode, long opcode)
         self.rel = rel          # mnemonic -> opcode
@@ -66,6 +69,12 @@ def _mk():
                         {"jmp": (0xEB, 0xE9)},
                         {"jnz": 0x75, "jz": 0x74, "jc": 0x72, "loop": 0xE2},
                         "db\t%d dup (0eeh)", "org\t0%xh", "0%02xh", pc="$")
+    d["6809"].assume = "assume\tdpr:$%02x"
+    d["65ce02"] = Dialect("65ce02", "abs", "65ce02", False, False,
+                          {"defb": "fcb\t$C7,%s", "abs2": "fdb\t%s"},
+                          {"lda": (0xA5, 0xAD), "ldx": (0xA6, 0xAE), "sta": (0x85, 0x8D), "adc": (0x65, 0x6D)},
+                          {"bne": 0xD0, "beq": 0xF0, "bcc": 0x90}, moto["fill"], moto["org"], moto["hexfmt"])
+    d["65ce02"].assume = "assume\tb:$%02x"
     # word-padded, little-endian, not Motorola: data words and nop only (its jumps have one size)
     d["msp430"] = Dialect("msp430", "68k", "msp430", False, True,
                           {"defb": ".byte\t0c7h,%s", "defw": ".word\t0%02xc7h", "abs2": ".word\t%s", "ins": "nop"},
@@ -75,8 +84,9 @@ def _mk():
 
 DIALECTS = _mk()
 CLASSES = {"68k": ["68000"], "abs": ["6809", "68hc11", "6502"], "86": ["8086"],
-           "self68k": ["68000", "msp430"], "selfabs": ["6809", "68hc11", "6502"], "self86": ["8086"]}
-BASECLASS = {"self68k": "68k", "selfabs": "abs", "self86": "86"}
+           "self68k": ["68000", "msp430"], "selfabs": ["6809", "68hc11", "6502"], "self86": ["8086"],
+           "pageabs": ["6809", "65ce02"]}
+BASECLASS = {"self68k": "68k", "selfabs": "abs", "self86": "86", "pageabs": "abs"}
 REFKINDS = ("abs", "var", "rel", "labs", "lvar", "lrel")
 
 
@@ -84,6 +94,8 @@ def supports(dia, prog):
     """can this dialect express the program (msp430: data words of width 2 and nop only)"""
     D = DIALECTS[dia]
     for it in prog:
+        if it["k"] == "asm" and not D.assume:
+            return False
         if it["k"] in ("var", "lvar") and not D.var:
             return False
         if it["k"] in ("rel", "lrel") and not D.rel:
@@ -159,6 +171,9 @@ def render(prog, org, dia, r):
         elif k == "ins":
             lines.append("\t" + D.lines["ins"])
             choice.append(None)
+        elif k == "asm":
+            lines.append("\t" + D.assume % it["pg"])
+            choice.append(None)
         elif k == "equ":
             if it["d"]:
                 lines.append("%s\tequ\t%s+%d" % (it["l"], it["l2"], it["d"]))
@@ -230,7 +245,7 @@ def decode(prog, org, dia, choice, img):
             v = word(a, n)
             if k == "labs" and it.get("df") and v >= 1 << (8 * n - 1):
                 v -= 1 << (8 * n)            # a difference of two addresses is a signed quantity
-        elif k == "equ":
+        elif k in ("equ", "asm"):
             n = 0
         elif k in ("var", "lvar"):
             so, lo = D.var[choice[j - 1]]
